@@ -4,7 +4,9 @@ import os
 
 from . import cpuguard, env
 
-OPTION_SETS = (('-bb',), ('-O',), ('-bb', '-O'), ('-W', 'error::BytesWarning', '-b'), ('-W', 'error::DeprecationWarning'))
+# -bb and warnings turned into errors were option sets for a while and were withdrawn (DESIGN.md Appendix B): no statement
+# quantifies over them, and property-preserving rewrites trip them (a bytes value in a log line, a deprecated stdlib call)
+OPTION_SETS = (('-O',), ('-OO',), ('-X', 'utf8'), ('-I',))
 
 
 def run(ctx, jobs, options, tmpdir, tz=None, cpu_seconds=120):
